@@ -345,7 +345,7 @@ where
             eprintln!("Progress bar thread emitted error message: {:?}", e);
         }
 
-        let sample_f32 = sample.to_data();
+        let sample_f32 = sample.to_data().convert::<f32>();
         let view =
             ArrayView3::<f32>::from_shape(sample.dims(), sample_f32.as_slice().unwrap()).unwrap();
         let run_stats = RunStats::from(view);
